@@ -37,9 +37,9 @@ def post_selections(nv):
         def mr():
             p = lw.PostSelection(multi_rules=True); p.add((0, 1), (1, 2)); p.add(0, (0, 1)); return p
         out.append(("multi_rules", mr))
-    # predicate restricted to indexing/iteration: Analyzer and QuickSampler hand the predicate a plain
-    # list where the Sampler hands it a State (observation recorded in DESIGN.md, not demanded here)
     out.append(("predicate", lambda: (lambda s: s[0] <= 1 and sum(s) >= 1)))
+    # a predicate written against the State it is documented to receive (photon count, comparison with a State)
+    out.append(("predicate_state_api", lambda: (lambda s: s.n_photons >= 1 and s != lw.State([1] + [0] * (nv - 1)))))
     return out
 
 
@@ -136,7 +136,9 @@ def check_circuit(recipe, env, maxph, acc):
                 exp_list = {lw.State(list(i)): [lw.State(list(o)) for o in want_outputs[:2]] for i in iset}
                 alien = lw.State([k + 1] + [0] * (nv - 1))
                 exp_alien = {lw.State(list(i)): [alien, lw.State(list(want_outputs[-1]))] for i in iset}
-                for elabel, emap in (("single", exp_single), ("list", exp_list), ("alien", exp_alien)):
+                exp_dup = {lw.State(list(i)): [lw.State(list(want_outputs[0])), lw.State(list(want_outputs[-1])),
+                                               lw.State(list(want_outputs[0]))] for i in iset}      # a state named twice
+                for elabel, emap in (("single", exp_single), ("list", exp_list), ("alien", exp_alien), ("repeated", exp_dup)):
                     acc.tick("executions"); acc.tick("transitions")
                     r1 = emu.Analyzer(c)
                     r1.post_selection = pfac()
@@ -145,7 +147,7 @@ def check_circuit(recipe, env, maxph, acc):
                     for a, i in enumerate(iset):
                         e = emap[lw.State(list(i))]
                         e = [e] if isinstance(e, lw.State) else e
-                        good = sum(want[a, outs.index(tuple(x.s))] for x in e if tuple(x.s) in outs)
+                        good = sum(want[a, outs.index(t)] for t in {tuple(x.s) for x in e} if t in outs)
                         errs.append(1 - good / want[a].sum())
                     if abs(rr.error_rate - float(np.mean(errs))) > 1e-7:
                         acc.violation("analyzer_error_rate", {**case, "expected": elabel},
